@@ -24,6 +24,8 @@ for p in props:
     for s in sorted(glob.glob(f'{root}/seeded/{i}*/meta.json')):
         mj=json.load(open(s))
         det=[k for k,v in mj['ran'].items() if v['check_exit']==1]
-        seeds.append((os.path.basename(os.path.dirname(s)), 'caught by '+','.join(det) if det else 'MISSED'))
+        fr=mj.get('first_run')
+        late = bool(fr) and not any(v['check_exit']==1 for v in fr['ran'].values())
+        seeds.append((os.path.basename(os.path.dirname(s)), ('caught by '+','.join(det)+(' (after strengthening)' if late else '')) if det else 'MISSED'))
     fs=[f"{f['status']}: {f['key'][:60]}" for f in kf if f['property']==i]
     print(f"| {i} | {m['engine']} / {m['level']} | {ev} | {mu} | {'; '.join(a+': '+b for a,b in seeds)} | {'<br>'.join(fs)} |")
